@@ -20,7 +20,7 @@ TECHNIQUE = ('differential runtime monitor: decisions of a real file-backed Enfo
 RULE = ('strata: X = exhaustive layering of 2 names over 5 layer slots (registered default, main file, d1/a, d1/b, d2/a: '
         '1024 assignments); Y = random layerings of 4 names over registered default, main file (present/absent), three '
         'configured directories plus a configured-but-missing one, files B.yaml a.yaml a10.json a2.yaml .hidden.yaml '
-        'sub/x.yaml Z.yaml z.json m.yaml created in shuffled order, every file independently JSON / YAML / line-style YAML; '
+        'sub/x.yaml Z.yaml z.json m.yaml created in shuffled order, every file independently JSON / YAML / line-style YAML, paths absolute or relative to a configuration directory; '
         'Z = exhaustive file-selection table 7 ways of setting policy_file x 8 existence patterns x fallback switch x '
         'explicit argument = 224 rows. Each configuration is decided for every name under every single-role credential. '
         'Non-trivial = at least one name is defined in two or more layers; distinct = distinct configuration.')
@@ -75,7 +75,7 @@ def check_layering(ctx, case):
         for lid, p, defs in order:
             for n in defs:
                 eff[n] = lid_role(lid)
-        conf = tree.conf(policy_dirs=[tree.path(d) for d in case['dirs']])
+        conf = tree.conf(policy_dirs=[tree.path(d) for d in case['dirs']], relative=bool(case.get('relative')))
         enf = policy.Enforcer(conf)
         for lid, p, defs in case['layers']:
             if lid == 'default':
@@ -135,7 +135,8 @@ def gen_layering(rnd):
     dirs = list(DIRS)
     if rnd.random() < 0.3:
         rnd.shuffle(dirs)
-    return dict(s='Y', names=names, dirs=dirs, layers=layers, fmts=fmts, write_order=order, subdir=True)
+    return dict(s='Y', names=names, dirs=dirs, layers=layers, fmts=fmts, write_order=order, subdir=True,
+                relative=rnd.random() < 0.4)
 
 
 def exhaustive_layerings():
